@@ -173,25 +173,57 @@ def oracle_identity(rng, n, fo, ineq, eqm, Lrows, idmap):
     return None
 
 
-def oracle_bounds(rng, n, fo, go, ho, p, q):
-    from sageopt.relaxations import sage_sigs as ss
-    with warnings.catch_warnings():
-        warnings.simplefilter('ignore')
-        try:
-            pv = ss.sig_constrained_relaxation(fo, go, ho, form='primal', p=p, q=q).solve(verbose=False)
-            dv = ss.sig_constrained_relaxation(fo, go, ho, form='dual', p=p, q=q).solve(verbose=False)
-        except Exception:
-            return None
-    ub = math.inf
+def feasible_upper_bound(rng, n, fo, go, ho):
+    """min of f over true feasible points: a grid, refined by a local solver when there are no equations (every point used is
+    checked against the constraints, so the value is a valid upper bound on the constrained minimum whatever the solver does)"""
+    from scipy.optimize import minimize
+    pts = []
     for _ in range(400):
         x = np.array([rng.randint(-6, 6) / 4.0 for _ in range(n)])
         if all(float(g(x)) >= 0 for g in go) and all(abs(float(h(x))) <= 1e-12 for h in ho):
-            ub = min(ub, float(fo(x)))
-    for name, (st, val) in (('primal', pv), ('dual', dv)):
+            pts.append((float(fo(x)), x))
+    pts.sort(key=lambda t: t[0])
+    ub = pts[0][0] if pts else math.inf
+    if pts and not ho:
+        for _, x0 in pts[:3]:
+            try:
+                res = minimize(lambda x: float(fo(x)), x0, method='SLSQP', bounds=[(-2.0, 2.0)] * n,
+                               constraints=[{'type': 'ineq', 'fun': (lambda x, g=g: float(g(x)) - 1e-9)} for g in go], options={'maxiter': 60})
+            except Exception:
+                continue
+            x = np.asarray(res.x, dtype=float)
+            if np.all(np.isfinite(x)) and all(float(g(x)) >= 0 for g in go):
+                ub = min(ub, float(fo(x)))
+    return ub
+
+
+def oracle_bounds(rng, n, fo, go, ho, p, q):
+    from sageopt.relaxations import sage_sigs as ss
+    ell = rng.choice([0, 0, 1]) if (p == 0 and q == 1) else 0      # ell >= 1 on top of p >= 1 or q >= 2 takes minutes to solve
+    X = None
+    with warnings.catch_warnings():
+        warnings.simplefilter('ignore')
+        if rng.random() < 0.3:
+            try:
+                X = ss.infer_domain(fo, go, ho)
+            except Exception:
+                X = None
+        try:
+            pv = ss.sig_constrained_relaxation(fo, go, ho, X, form='primal', p=p, q=q, ell=ell).solve(verbose=False)
+            dv = ss.sig_constrained_relaxation(fo, go, ho, X, form='dual', p=p, q=q, ell=ell).solve(verbose=False)
+            ds = ss.sig_constrained_relaxation(fo, go, ho, X, form='dual', p=p, q=q, ell=ell, slacks=True).solve(verbose=False)
+        except Exception:
+            return None
+    opts = '(p=%d, q=%d, ell=%d, X=%s)' % (p, q, ell, 'None' if X is None else 'inferred')
+    ub = feasible_upper_bound(rng, n, fo, go, ho)
+    for name, (st, val) in (('primal', pv), ('dual', dv), ('dual with slacks', ds)):
         if st == 'solved' and math.isfinite(val) and math.isfinite(ub) and val > ub + 1e-4 * (1 + abs(ub)):
-            return '%s value %r exceeds f at a sampled feasible point (%r)' % (name, val, ub)
+            return '%s value %r %s exceeds f at a feasible point (%r)' % (name, val, opts, ub)
     if pv[0] == 'solved' and dv[0] == 'solved' and math.isfinite(pv[1]) and math.isfinite(dv[1]) and pv[1] > dv[1] + 1e-4 * (1 + abs(dv[1])):
-        return 'primal value %r exceeds dual value %r' % (pv[1], dv[1])
+        return 'primal value %r exceeds dual value %r %s' % (pv[1], dv[1], opts)
+    # slack variables only relax the dual by a bounded amount that the solver drives to zero: same value (same solver, same tolerance)
+    if dv[0] == 'solved' and ds[0] == 'solved' and math.isfinite(dv[1]) and math.isfinite(ds[1]) and ds[1] > dv[1] + 1e-3 * (1 + abs(dv[1])):
+        return 'dual value with slacks=True (%r) exceeds the dual value with slacks=False (%r) %s' % (ds[1], dv[1], opts)
     return None
 
 
